@@ -1,9 +1,11 @@
 //! One module per property: strategy, labels, tiers. The oracles live in `sdjwt_model::oracle`.
 pub mod c01;
 pub mod c02;
+pub mod c03;
 pub mod c04;
 pub mod c05;
 pub mod c06;
+pub mod c08;
 pub mod c09;
 pub mod c11;
 pub mod c12;
